@@ -283,6 +283,20 @@ func (c *ctx) judge(sc scenario, res result, lines []string) {
 				}
 			}
 		}
+		// "a TLS-protected stream or an error": protected means the peer was authenticated — a
+		// session whose ClientHello was answered with a certificate for another name, or of a CA
+		// the configuration does not trust, must not come about (default and explicit config alike)
+		if k := sc.badCert(); k != 0 && strings.HasPrefix(res.outcome, "done.") && (res.hello != "" || sc.ck == 3) {
+			cfgK := "default-config"
+			if sc.explicit {
+				cfgK = "explicit-config"
+			}
+			if sc.ck == 3 {
+				cfgK = "tls-conn"
+			}
+			r.Fail("certificate-verified", fmt.Sprintf("%s/%s/cert%d", teeK, cfgK, k), lines,
+				fmt.Sprintf("NewSession returned a session (%s) although the peer presented a %s", res.outcome, certKinds[k]))
+		}
 		scriptedSecure := false // an instrumented feature was told to return the Secure bit itself
 		for _, p := range res.picks {
 			if p.id != 0 && p.res.mask&uint8(xmpp.Secure) != 0 {
@@ -875,6 +889,23 @@ func (c *ctx) corpus(tees []int) {
 		c.pipelined(scenario{ck: ck, clear: [][]unit{{hdr(true), list(it(0, true))}, {u('P')}}, prot: []pu{{u: hdr(true)}, {u: list()}}},
 			[]unit{hdr(true), list()}, []int{2}, "corpus-websocket")
 	}
+	// 11. "TLS-protected" means the peer was authenticated: a certificate for another name / of an
+	// unknown CA ends the negotiation with a TLS error — default and explicit configuration,
+	// advertised and forced STARTTLS, every clear kind of connection and the *tls.Conn
+	for _, ck := range []int{0, 1, 2, 3, 4, 5, 6, 7} {
+		for cert := 1; cert <= 2; cert++ {
+			for _, explicit := range []bool{false, true} {
+				for _, l := range []unit{list(it(0, true)), list(), list(it(0, false), sa)} {
+					sc := scenario{ck: ck, explicit: explicit, others: bi, clear: [][]unit{{hdr(true), l}, {u('P')}},
+						prot: []pu{{junk: true, cert: cert}, {u: hdr(true)}, {u: list()}}, domain: cert, remote: cert}
+					if ck == 3 {
+						sc.clear = nil
+					}
+					c.check(sc, []int{1 + (ck+cert)%3}, "corpus-bad-certificate")
+				}
+			}
+		}
+	}
 	// a stream error that declares its namespace itself, in every position (TCP framing)
 	for _, cl := range [][][]unit{{{u('D')}}, {{hdr(true), u('D')}}, {{hdr(true), list(it(0, true))}, {u('D')}}} {
 		c.check(scenario{clear: cl}, []int{3}, "corpus")
@@ -1226,6 +1257,9 @@ func (c *ctx) random(n int, tees []int) {
 			}
 		}
 		// TLS phase
+		if rnd.Chance(1, 15) {
+			sc.prot = append(sc.prot, pu{junk: true, cert: 1 + rnd.Intn(2)})
+		}
 		np := rnd.Intn(5)
 		for k := 0; k < np; k++ {
 			// (a round without a header: what follows a required feature that was
